@@ -52,12 +52,15 @@ def gen_cases(ck, limit, step):
     cases = []
     quick = ck.tier == "quick"
 
-    def add(frames, events, tag, pre=0, take=None):
+    def add(frames, events, tag, pre=0, take=None, owed=0):
         """frames: list of (kind, text) in wire order; the first `pre` are received before the chain;
-        take: stop after that many stream items and drop the unfinished stream."""
+        take: stop after that many stream items and drop the unfinished stream; owed: calls of the
+        chain beyond the replies in the script (the stream then ends in end-of-file or stays pending)."""
         c = {"id": len(cases), "n": len(frames) - pre, "pre": pre, "frames": frames, "events": events, "tag": tag}
         if take is not None:
             c["take"] = take
+        if owed:
+            c["calls"] = len(frames) - pre + owed
         cases.append(c)
 
     def chunk(stream, mode):
@@ -137,6 +140,20 @@ def gen_cases(ck, limit, step):
         frames = [("ok", note(rng, rng.randrange(1, 40))) for _ in range(n)]
         add(frames, chunk(wire(frames), rng.choice(["one_read", "one_read", "two_bursts"])), "drop_unfinished_stream",
             take=rng.randrange(1, n))
+    # (c4) the chain is owed more replies than arrive: the held items are re-read after the stream
+    # reported end-of-file, and after a poll that found the transport empty (nothing is read in either)
+    for i in range(80 if quick else 800):
+        n = rng.randrange(1, 5)
+        big = rng.random() < 0.5
+        frames = [("ok", note(rng, rng.randrange(100, 400) if big and j == 0 else rng.randrange(1, 40))) for j in range(n)]
+        pre = 0
+        if rng.random() < 0.3:           # the buffer was grown by an earlier exchange
+            frames = [("ok", note(rng, rng.choice([300, 700, 1500])))] + frames
+            pre = 1
+        ev = chunk(wire(frames), rng.choice(["one_read", "one_read", "two_bursts", "per_reply"]))
+        if i % 2:
+            ev = ev[:-1] + [["p"]] * rng.randrange(0, 3)       # no end-of-file: the last poll stays pending
+        add(frames, ev, "owed_more_than_arrives_" + ("pending" if i % 2 else "eof"), pre=pre, owed=rng.randrange(1, 3))
     # (d) a connection whose buffer was grown by an earlier large reply, then a chain of short replies
     for i in range(60 if quick else 600):
         pre = [("ok", note(rng, rng.choice([300, 700, 1100, 1500, 2500])))]
@@ -153,6 +170,50 @@ def gen_cases(ck, limit, step):
         if len(wire(frames)) < limit:
             add(frames, chunk(wire(frames), "one_read"), "large_burst_short_last")
     return cases
+
+
+def settle(ck, c, r, leg=""):
+    """Spec-level checks of the events in which nothing is read from the transport: the end of the
+    stream, polling a finished stream again, a poll that stays pending, the end-of-file report.
+    Returns the result cut back to the steps the model runs, and whether the case is still clean."""
+    steps = r["steps"]
+
+    def show(vs):
+        return [bytes.fromhex(v)[:24] for v in vs]
+    last_ok = [s_ for s_ in steps if s_.get("views") is not None]
+    for key, what in (("after_end", "the stream reported its end"), ("after_stuck", "a poll found the transport empty")):
+        a = r.get(key)
+        if a and last_ok:
+            ref = last_ok[-1]["views"]
+            for vk in ("views", "views_again"):
+                if vk in a and a[vk] != ref and a["data_reads"] == last_ok[-1]["data_reads"]:
+                    ck.violation("%sheld reply strings changed when %s (%s), although nothing was read from the "
+                                 "transport: %s -> %s" % (leg, what, vk, show(ref), show(a[vk])),
+                                 {"leg": "production" if leg else "hook", "case": c, "impl": r}, tag="e%s%d" % (leg[:1], c["id"]))
+                    return r, False
+            if key == "after_end" and not a.get("none_again", True):
+                ck.violation("%sa finished reply stream yielded something when polled again" % leg,
+                             {"leg": "production" if leg else "hook", "case": c, "impl": r}, tag="f%s%d" % (leg[:1], c["id"]))
+                return r, False
+    if "calls" in c and len(steps) >= len(c["frames"]):
+        nfr = len(c["frames"])
+        extra = steps[nfr:]
+        # at most one more step: the end-of-file report (no data was read for it)
+        for s_ in extra:
+            if s_["data_reads"] == steps[nfr - 1]["data_reads"] and s_["views"] != steps[nfr - 1]["views"]:
+                ck.violation("%sheld reply strings changed when the stream reported %s for a reply that never came, "
+                             "although nothing was read from the transport: %s -> %s" % (
+                                 leg, s_["res"], show(steps[nfr - 1]["views"]), show(s_["views"])),
+                             {"leg": "production" if leg else "hook", "case": c, "impl": r}, tag="o%s%d" % (leg[:1], c["id"]))
+                return r, False
+        if extra and not (len(extra) == 1 and extra[0]["res"] == "err:eof"):
+            ck.violation("%sa chain owed %d more replies than arrived yielded %s after the replies" % (
+                leg, c["calls"] - (nfr - c["pre"]), [s_["res"] for s_ in extra]),
+                {"leg": "production" if leg else "hook", "case": c, "impl": r}, tag="x%s%d" % (leg[:1], c["id"]))
+            return r, False
+        r = dict(r)
+        r["steps"] = steps[:nfr]
+    return r, True
 
 
 def render(c, r, step, limit):
@@ -177,7 +238,7 @@ def main():
         ck.prove(["gen/Consts.v", "Framing/BorrowExec.v"], "props/C11.v")
     if ck.replay:
         rp = json.load(open(ck.replay))
-        cases = [rp["case"]] if "case" in rp else []
+        cases = [rp["case"]] if "case" in rp and rp.get("leg") != "production" else []
         for i, c in enumerate(cases):
             c["id"] = i
     else:
@@ -200,7 +261,7 @@ def main():
         for k, t in c["frames"][: len(r["steps"])]:
             exp.append("vs" if k == "vs" else EXPECT[k])
         got = ["vs" if s_["res"].startswith("vs:") else s_["res"] for s_ in r["steps"]]
-        if got != exp and "take" not in c and not r.get("stuck"):
+        if got[:len(exp)] != exp[:len(got)] or (len(got) < len(exp) and "take" not in c and not r.get("stuck")):
             ck.violation("stream items were not classified as the reply frames prescribe: got %s, frames %s" % (
                 got, [k for k, t in c["frames"]]), {"case": c, "impl": r}, tag="r%d" % c["id"])
             continue
@@ -211,6 +272,9 @@ def main():
                     [bytes.fromhex(v)[:24] for v in r["steps"][-1]["views"]],
                     [bytes.fromhex(v)[:24] for v in r["after_drop"]]), {"case": c, "impl": r}, tag="d%d" % c["id"])
                 continue
+        r, ok2 = settle(ck, c, r)
+        if not ok2:
+            continue
         items.append((c, r))
     try:
         bad = ck.coq_eval("cases", HEADER, items, lambda it: render(it[0], it[1], step, limit))
@@ -247,6 +311,108 @@ def main():
                          {"case": c, "impl": r, "model": model,
                           "correspondence": "Borrow.run_hold vs held &str re-read after each stream item"},
                          tag="m%d" % c["id"], no_input=True)
+    # ---- production buffer limit (borrow harness built WITHOUT the hook cfg): replies far beyond the
+    # hook's limit. Every chain here has all its replies in ONE transport burst, so no later item needs
+    # a transport read and the theorem's conclusion applies as it stands (it is proved for every limit):
+    # each held string reads as it was yielded, after every later item, after the end of the stream,
+    # after a pending poll and after an end-of-file report.
+    prod_runs = 0
+    if not ck.replay or json.load(open(ck.replay)).get("leg") == "production":
+        root = harness_root()
+        rc_, log_ = sh("cargo build --offline --bin borrow --target-dir %s" % os.path.join(root, "target-nohook"),
+                       timeout=1500, cwd=root, env={"RUSTFLAGS": ""})
+        if rc_ != 0:
+            ck.violation("borrow harness does not build against /repo without the hook cfg", {"log": log_[-3000:]},
+                         tag="pbuild", no_input=True)
+        else:
+            rng = ck.rng
+            pcases = []
+            if ck.replay:
+                pc = json.load(open(ck.replay))["case"]
+                pc["id"] = 0
+                pcases.append(pc)
+            SIZES = [limit - 40, limit, limit + step, 2 * limit, 4 * limit + 3, 5 * limit, 16 * limit + 100, 17 * limit, 40 * limit]
+            for i in range(0 if ck.replay else (36 if ck.tier == "quick" else 300)):
+                n = rng.randrange(2, 5)
+                lens = [rng.randrange(1, 60) for _ in range(n)]
+                lens[rng.randrange(0, n)] = rng.choice(SIZES)
+                if rng.random() < 0.3:
+                    lens[rng.randrange(0, n)] = rng.choice(SIZES[:6])
+                frames = [("ok", note(rng, 8) * (ln // 8) + note(rng, ln % 8)) for ln in lens]
+                pre = 0
+                ev = []
+                if rng.random() < 0.35:      # an earlier exchange grew the buffer
+                    frames = [("ok", note(rng, 10) * (rng.choice(SIZES) // 10))] + frames
+                    pre = 1
+                    ev = [["d", fg.wire([frame_bytes(*frames[0])]).hex()], ["p"]]
+                ev.append(["d", fg.wire([frame_bytes(k, t) for k, t in frames[pre:]]).hex()])
+                mode = i % 3
+                owed = 0
+                if mode == 0:
+                    ev.append(["e"])
+                elif mode == 1:
+                    owed = rng.randrange(1, 3)
+                    ev += [["p"]] * rng.randrange(0, 2)
+                else:
+                    owed = rng.randrange(1, 3)
+                    ev.append(["e"])
+                c = {"id": len(pcases), "n": len(frames) - pre, "pre": pre, "frames": frames, "events": ev,
+                     "tag": ["all_arrive", "owed_pending", "owed_eof"][mode]}
+                if owed:
+                    c["calls"] = len(frames) - pre + owed
+                pcases.append(c)
+            exe = os.path.join(root, "target-nohook", "debug", "borrow")
+            n_sh = 12
+            parts = [pcases[j::n_sh] for j in range(n_sh) if pcases[j::n_sh]]
+            from concurrent.futures import ThreadPoolExecutor
+
+            def prun(part):
+                inp = "\n".join(json.dumps({k: v for k, v in c.items() if k != "frames"}) for c in part) + "\n"
+                rc2, out2 = sh(exe, timeout=900, input=inp)
+                got = {}
+                for l in out2.splitlines():
+                    if l.startswith("{"):
+                        try:
+                            o = json.loads(l)
+                            got[o.get("id")] = o
+                        except ValueError:
+                            pass
+                return got
+            pres = {}
+            with ThreadPoolExecutor(max_workers=n_sh) as ex:
+                for got in ex.map(prun, parts):
+                    pres.update(got)
+            for c in pcases:
+                prod_runs += 1
+                r = pres.get(c["id"])
+                sizes = [len(t) for k, t in c["frames"]]
+                slim = dict(c)
+                slim["frames"] = [[k, "<%d bytes>" % len(t)] if len(t) > 200 else [k, t] for k, t in c["frames"]]
+                if r is None or r.get("panic"):
+                    ck.violation("production limit: reply stream crashed/panicked while replies of %s bytes were held" % sizes,
+                                 {"leg": "production", "case": c, "impl": r}, tag="pp%d" % c["id"])
+                    continue
+                want_all = [t.encode().hex() for k, t in c["frames"][c["pre"]:]]
+                okc = True
+                for j, s_ in enumerate(r["steps"]):
+                    k_items = max(0, min(j + 1 - c["pre"], len(want_all)))
+                    if j < len(c["frames"]) and (s_["res"] != "ok" or s_["views"] != want_all[:k_items]):
+                        okc = False
+                        first_bad = j
+                        break
+                if not okc:
+                    r2 = dict(r)
+                    r2["steps"] = [{"res": s_["res"], "views": [v[:48] for v in s_["views"]]} for s_ in r["steps"]]
+                    ck.violation("production limit: replies of %s bytes in one burst: after item %d the held strings no "
+                                 "longer read as they were yielded" % (sizes, first_bad),
+                                 {"leg": "production", "case": c, "impl": r2}, tag="pv%d" % c["id"])
+                    continue
+                if len(r["steps"]) < len(c["frames"]):
+                    ck.violation("production limit: only %d of %d replies of %s bytes were yielded" % (
+                        len(r["steps"]), len(c["frames"]), sizes), {"leg": "production", "case": c, "impl": r},
+                        tag="pn%d" % c["id"])
+                    continue
+                settle(ck, c, r, leg="production limit: ")
     hist = {}
     for c in cases:
         hist[c["tag"]] = hist.get(c["tag"], 0) + 1
@@ -256,7 +422,8 @@ def main():
                    "cases_in_known_finding_class_with_corruption": known,
                    "of_which_overwritten_in_place": corrupted_overwritten,
                    "of_which_freed_by_reallocation": corrupted_freed,
-                   "cases_all_items_stable": len(items) - len(bad)})
+                   "cases_all_items_stable": len(items) - len(bad),
+                   "production_limit_runs": prod_runs})
     for c in cases[:2]:
         ck.samples.append({"frames": [(k, t[:30]) for k, t in c["frames"]], "events": [e[0] for e in c["events"]]})
     ck.assumptions += [
